@@ -258,6 +258,8 @@ structure AddAcc where
   added : List Nat
   failed : List Nat
   aborted : Bool
+  /-- contents of the registry file (`node_registry.save()` inside the loop writes the whole in-memory registry) -/
+  file : List Svc
 
 /-- The RPC port and the metrics port of one new service: requested, or from `get_available_port`
 (RPC port first; a metrics port only if requested or `enable_metrics_server`). `none` = allocation failed. -/
@@ -290,7 +292,8 @@ def addOne (num : Nat) (np mp rp : Option Nat) (metrics : Bool) (ver : Nat) (a :
     | (false, fx) =>
       { a with
         w := ⟨w.reg ++ [⟨num, .added, none, np, metP, rpcP, ver⟩], osInstall (mkDir w.os num) num np⟩,
-        fx := fx, added := a.added ++ [num] }
+        fx := fx, added := a.added ++ [num],
+        file := w.reg ++ [⟨num, .added, none, np, metP, rpcP, ver⟩] }
 
 /-- The loop, `k` iterations left; a failed port allocation (`?`) leaves the function at once. -/
 def addLoop : Nat → Nat → Option Nat → Option Nat → Option Nat → Bool → Nat → AddAcc → AddAcc
@@ -305,23 +308,25 @@ def joinNats : List Nat → String
   | [a] => toString a
   | a :: r => toString a ++ "," ++ joinNats r
 
-def addNode (w : World) (fx : Fx) (count : Nat) (np mp rp : Option (Nat × Nat)) (metrics : Bool) (ver : Nat) :
-    World × Fx × Res :=
+/-- `add_node`; `file` is the registry file's content before the call, the last component its content at return
+(the function saves after every completed install and nowhere else). -/
+def addNode (w : World) (fx : Fx) (file : List Svc) (count : Nat) (np mp rp : Option (Nat × Nat)) (metrics : Bool)
+    (ver : Nat) : World × Fx × Res × List Svc :=
   let ports := allPorts w.reg
   match checkRange np count ports with
-  | some e => (w, fx, .err e)
+  | some e => (w, fx, .err e, file)
   | none =>
   match checkRange mp count ports with
-  | some e => (w, fx, .err e)
+  | some e => (w, fx, .err e, file)
   | none =>
   match checkRange rp count ports with
-  | some e => (w, fx, .err e)
+  | some e => (w, fx, .err e, file)
   | none =>
     let a := addLoop count (startNumber w.reg) (np.map (·.1)) (mp.map (·.1)) (rp.map (·.1)) metrics ver
-      ⟨w, fx, [], [], false⟩
-    if a.aborted then (a.w, a.fx, .err "err:port-alloc")
-    else if !a.failed.isEmpty then (a.w, a.fx, .err "err:partial")
-    else (a.w, a.fx, .ok ("ok:[" ++ joinNats a.added ++ "]"))
+      ⟨w, fx, [], [], false, file⟩
+    if a.aborted then (a.w, a.fx, .err "err:port-alloc", a.file)
+    else if !a.failed.isEmpty then (a.w, a.fx, .err "err:partial", a.file)
+    else (a.w, a.fx, .ok ("ok:[" ++ joinNats a.added ++ "]"), a.file)
 
 /-! ## Abstract serialisation of the registry (`NodeRegistry::save` / `load`) -/
 
@@ -396,8 +401,8 @@ def onSvc (w : World) (i : Nat) (faults : List Bool) (f : Svc → OS → Fx → 
 
 def exec (w : World) : Op → World × Res × Nat
   | .add count np mp rp metrics ver faults =>
-    match addNode w ⟨faults, 0⟩ count np mp rp metrics ver with
-    | (w', fx, r) => (w', r, fx.calls)
+    match addNode w ⟨faults, 0⟩ [] count np mp rp metrics ver with
+    | (w', fx, r, _) => (w', r, fx.calls)
   | .start i ct faults => onSvc w i faults (fun s os fx => svcStart s os fx ct)
   | .stop i faults => onSvc w i faults svcStop
   | .remove i keep faults => onSvc w i faults (fun s os fx => svcRemove s os fx keep)
@@ -422,5 +427,46 @@ def step (w : World) (op : Op) : World := (exec w op).1
 def result (w : World) (op : Op) : Res := (exec w op).2.1
 
 def run (w : World) (ops : List Op) : World := ops.foldl step w
+
+/-! ## The registry file as an observable
+
+`Sys` = the in-memory world plus the content of the registry file. The file changes exactly where the code saves:
+inside `add_node` after every completed install, and in the callers (`cmd/node.rs`): `add`, `start`, `stop`, `remove`
+save after a successful operation only, `upgrade` saves whatever the outcome; a bare refresh does not save.
+`reload` drops the in-memory registry and continues from the file (the next `antctl` invocation). -/
+
+structure Sys where
+  w : World
+  file : List Svc
+deriving Repr
+
+def Sys.init : Sys := ⟨World.init, []⟩
+
+inductive SOp where
+  | op (o : Op)
+  | reload
+deriving Repr
+
+/-- Does the caller of the operation (the `antctl` command) save the registry after this outcome? -/
+def callerSaves (w : World) : Op → Res → Bool
+  | .add .., r => !r.failed
+  | .start .., r => !r.failed
+  | .stop .., r => !r.failed
+  | .remove .., r => !r.failed
+  | .upgrade i .., _ => (w.reg[i]?).isSome
+  | .saveload, r => !r.failed
+  | _, _ => false
+
+def execS (s : Sys) : SOp → Sys × Res × Nat
+  | .reload => (⟨⟨s.file, s.w.os⟩, s.file⟩, .ok, 0)
+  | .op (.add count np mp rp metrics ver faults) =>
+    match addNode s.w ⟨faults, 0⟩ s.file count np mp rp metrics ver with
+    | (w', fx, r, file') => (⟨w', if r.failed then file' else w'.reg⟩, r, fx.calls)
+  | .op o =>
+    match exec s.w o with
+    | (w', r, c) => (⟨w', if callerSaves s.w o r then w'.reg else s.file⟩, r, c)
+
+def stepS (s : Sys) (op : SOp) : Sys := (execS s op).1
+def runS (s : Sys) (ops : List SOp) : Sys := ops.foldl stepS s
 
 end SafeNet.Lifecycle
